@@ -45,6 +45,29 @@ class _Spy:
         return len([1 for k, j in self.log if k == kind and j == i])
 
 
+class _Alt:
+    """Per state, enter and leave events strictly alternate, starting from the active flag at registration time: no state is
+    entered while it is entered, none is left that was not entered; in the end the flags agree with the events seen."""
+
+    def __init__(self, states):
+        self.states = states
+        self.shadow = [s.active for s in states]
+        self.bad = False
+        for i, s in enumerate(states):
+            # first listener of each event: a handler registered earlier that requests the next transition from inside the
+            # event would otherwise make this observer see the follow-up's events before the event that caused them
+            s.events.enter._callbacks.insert(0, lambda d, i=i: self._ev(i, True))
+            s.events.leave._callbacks.insert(0, lambda d, i=i: self._ev(i, False))
+
+    def _ev(self, i, entering):
+        if self.shadow[i] == entering or (entering and not self.states[i].active):
+            self.bad = True
+        self.shadow[i] = entering
+
+    def ok(self):
+        return (not self.bad) and self.shadow == [s.active for s in self.states]
+
+
 def _set_current(sm, states, cur):
     for s in states:
         s._active = False
@@ -82,6 +105,7 @@ def shipped_step(which: int, cfg: int, onl: int, cur: int, t: int) -> bool:
     cur_state = pick(states, cur)
     _set_current(sm, states, cur_state)
     spy = _Spy(states, trans)
+    alt = _Alt(states)
     before_active = [s.active for s in states]
     unknown = t == len(trans)
     name = "no_such_transition" if unknown else pick(trans, t).name
@@ -108,7 +132,7 @@ def shipped_step(which: int, cfg: int, onl: int, cur: int, t: int) -> bool:
         delta = (1 if s.active else 0) - (1 if before_active[i] else 0)
         if e - l != delta or e > performed or l > performed:
             return False
-    if spy.count("called", t) != 1:
+    if spy.count("called", t) != 1 or not alt.ok():
         return False
     if performed == 1:
         # no forwarding handler involved: the machine is exactly at the requested destination
@@ -232,13 +256,15 @@ def nested_request(par: List[int], src: int, dst: int, nxt: int, hook: int) -> b
             fired.append(1)
             sm._perform_transition("next")
 
+    alt = _Alt(states)                 # registered first: sees the enter of `hook` before the follow-up runs
     states[hook].events.enter.register(follow)
     spy = _Spy(states, trans)
     sm._perform_transition("go")
     want = states[nxt] if fired else states[dst]
     if sm.current_state is not want:
         return False
-    return fin(_active_ok(sm, states) and spy.count("called", 0) == 1 and spy.count("called", 1) == (1 if fired else 0))
+    return fin(_active_ok(sm, states) and alt.ok()
+               and spy.count("called", 0) == 1 and spy.count("called", 1) == (1 if fired else 0))
 
 
 def refused_nested_request(par: List[int], src: int, dst: int, hook: int, swallow: bool) -> bool:
@@ -270,6 +296,7 @@ def refused_nested_request(par: List[int], src: int, dst: int, hook: int, swallo
             else:
                 sm._perform_transition("go")             # the handler lets the refusal propagate
 
+    alt = _Alt(states)
     states[hook].events.enter.register(follow)
     try:
         sm._perform_transition("go")
@@ -277,12 +304,14 @@ def refused_nested_request(par: List[int], src: int, dst: int, hook: int, swallo
         if swallow or not refused:
             return False
         # the refusal of the nested request reached the caller; when it was raised from the destination's own enter handler the
-        # outer transition had already switched: the machine must still be in ONE consistent state (dst with parents entered
-        # is only guaranteed when the hook is the last state entered, i.e. a root destination - see finding nested-parent-entry)
+        # outer transition had already switched: the machine must still be in ONE consistent state, dst with all its parents
+        # active (this used to fail for non-root destinations: fixed finding C18-nested-parent-entry)
     if sm.current_state is not states[dst] or not _active_ok(sm, states):
         return False
+    if swallow and not alt.ok():
+        return False                       # (a propagating refusal may cut the entering short: only the flags are guaranteed)
     sm._perform_transition("back")
-    return fin(sm.current_state is states[src] and _active_ok(sm, states))
+    return fin(sm.current_state is states[src] and _active_ok(sm, states) and (alt.ok() or not swallow))
 
 
 OBLIGATIONS = [
